@@ -705,7 +705,14 @@ func c19Mutate(r *Rng, root map[string]any) string {
 		}
 	case 3, 4: // wrong JSON type anywhere
 		if s, ok := pick(all); ok {
-			s.p.set(c19Junk(r, s.v))
+			orig := s.v
+			switch s.p.key {
+			case "timestamp", "from", "to", "zoneId":
+				// members whose TEXT is validated by Go (RFC 3339 timestamps, zone ids) and not by the model: after an
+				// earlier mutation such a member may hold null, so look at the key, not only at the current value
+				orig = "s"
+			}
+			s.p.set(c19Junk(r, orig))
 			return "wrong-type"
 		}
 	case 5, 6: // extreme durations
